@@ -58,6 +58,9 @@ class StreamableHTTPTransport(Transport):
         self._outgoing_send: Optional[MemoryObjectSendStream] = None
         self._outgoing_recv: Optional[MemoryObjectReceiveStream] = None
 
+        # ids of the messages routed to the incoming stream (see _ensure_terminal)
+        self._routed_ids: list = []
+
     async def get_streams(
         self,
     ) -> Tuple[MemoryObjectReceiveStream, MemoryObjectSendStream]:
@@ -174,6 +177,8 @@ class StreamableHTTPTransport(Transport):
                 headers["Mcp-Session-Id"] = self._session_id
                 logger.debug(f"Including session ID in request: {self._session_id}")
 
+            routed_before = len(self._routed_ids)
+
             # Create a new client for each request to avoid connection reuse issues
             async with httpx.AsyncClient(
                 timeout=httpx.Timeout(self.timeout), follow_redirects=True
@@ -220,6 +225,7 @@ class StreamableHTTPTransport(Transport):
                                 f"Got immediate JSON response for {message_id}"
                             )
                             await self._route_response(response_data)
+                            await self._ensure_terminal(message_id, routed_before)
                         except json.JSONDecodeError as e:
                             logger.error(f"Failed to parse JSON response: {e}")
                             error_response = {
@@ -233,6 +239,7 @@ class StreamableHTTPTransport(Transport):
                         # SSE streaming response
                         logger.debug(f"Processing SSE response for {message_id}")
                         await self._process_sse_response(response, message_id)
+                        await self._ensure_terminal(message_id, routed_before)
                     else:
                         # Unexpected content type - try to parse as JSON anyway
                         logger.debug(f"Unexpected content type: {content_type}")
@@ -244,7 +251,7 @@ class StreamableHTTPTransport(Transport):
                             if not response_text:
                                 logger.debug(f"Empty response body for {message_id}")
                                 # For notifications, this is fine
-                                if not message_id:
+                                if message_id is None:
                                     return
                                 # For requests, send an empty success response
                                 success_response = {
@@ -264,10 +271,11 @@ class StreamableHTTPTransport(Transport):
                                 # Try JSON parsing
                                 response_data = json.loads(response_text)
                                 await self._route_response(response_data)
+                            await self._ensure_terminal(message_id, routed_before)
                         except Exception as e:
                             logger.debug(f"Could not parse response: {e}")
-                            # For empty 202 responses, don't treat as error
-                            if response.status_code == 202:
+                            # For 202 responses to notifications, don't treat as error
+                            if response.status_code == 202 and message_id is None:
                                 logger.debug(f"202 Accepted for {message_id}")
                                 return
                             error_response = {
@@ -372,33 +380,40 @@ class StreamableHTTPTransport(Transport):
     async def _process_sse_text(self, text: str, message_id: str) -> None:
         """Process SSE text that's already fully loaded."""
         try:
-            lines = text.split("\n")
+            # Lines end with CRLF, LF or CR
+            lines = text.replace("\r\n", "\n").replace("\r", "\n").split("\n")
             current_event = None
             event_data: list[str] = []
 
             for line in lines:
-                line = line.rstrip("\r")
-
                 if not line:
-                    # Empty line marks end of event
-                    if current_event and event_data:
+                    # Empty line marks end of event (default type is "message")
+                    if event_data:
                         await self._process_sse_event(
-                            current_event, event_data, message_id
+                            current_event or "message", event_data, message_id
                         )
                     current_event = None
                     event_data = []
                     continue
 
-                # Parse SSE format
-                if line.startswith("event: "):
-                    current_event = line[7:].strip()
-                elif line.startswith("data: "):
-                    data = line[6:]  # Keep formatting
-                    event_data.append(data)
+                if line.startswith(":"):
+                    continue  # comment
+
+                # "field: value" - the space after the colon is optional
+                field, _, value = line.partition(":")
+                if value.startswith(" "):
+                    value = value[1:]
+
+                if field == "event":
+                    current_event = value.strip()
+                elif field == "data":
+                    event_data.append(value)  # Keep formatting
 
             # Process any remaining event
-            if current_event and event_data:
-                await self._process_sse_event(current_event, event_data, message_id)
+            if event_data:
+                await self._process_sse_event(
+                    current_event or "message", event_data, message_id
+                )
 
         except Exception as e:
             logger.error(f"Error processing SSE text: {e}")
@@ -428,10 +443,24 @@ class StreamableHTTPTransport(Transport):
     async def _route_response(self, response_data: Dict[str, Any]) -> None:
         """Route response to the appropriate handler."""
         try:
-            from chuk_mcp.protocol.messages.json_rpc_message import JSONRPCMessage
+            from chuk_mcp.protocol.messages.json_rpc_message import (
+                JSONRPCMessage,
+                parse_message,
+            )
+
+            # A JSON array is a batch: route every member, in order
+            if isinstance(response_data, list):
+                for item in response_data:
+                    await self._route_response(item)
+                return
 
             # Create JSON-RPC message
-            message = JSONRPCMessage.model_validate(response_data)  # type: ignore[attr-defined]
+            try:
+                message = JSONRPCMessage.model_validate(response_data)  # type: ignore[attr-defined]
+            except Exception:
+                # The unified class only accepts object results - a result may
+                # be any JSON value, so fall back to the specific message types
+                message = parse_message(response_data)  # type: ignore[assignment]
 
             # Check if this is a response (has id but no method)
             if hasattr(message, "id") and message.id and not hasattr(message, "method"):
@@ -447,13 +476,33 @@ class StreamableHTTPTransport(Transport):
             # Otherwise route to incoming stream
             if self._incoming_send:
                 await self._incoming_send.send(message)
+                self._routed_ids.append(getattr(message, "id", None))
                 logger.debug(
-                    f"Routed message to incoming stream: {message.method or 'response'}"
+                    f"Routed message to incoming stream: {getattr(message, 'method', None) or 'response'}"
                 )
 
         except Exception as e:
             logger.error(f"Error routing response: {e}")
             logger.error(f"Response data: {response_data}")
+
+    async def _ensure_terminal(self, message_id: Any, routed_before: int) -> None:
+        """A request must end with exactly one message carrying its id: if the
+        HTTP reply contained none, synthesise an error response."""
+        if message_id is None:
+            return
+        for routed in self._routed_ids[routed_before:]:
+            if routed == message_id and type(routed) is type(message_id):
+                return
+        await self._route_response(
+            {
+                "jsonrpc": "2.0",
+                "id": message_id,
+                "error": {
+                    "code": -32603,
+                    "message": "HTTP reply contained no response for this request",
+                },
+            }
+        )
 
     async def wait_for_response(
         self, message_id: str, timeout: float | None = None
